@@ -413,8 +413,27 @@ func (x *Exec) checkInvs(s *State, invs []*SpecExpr, kind string, pos token.Pos,
 		env.vars[k] = v
 	}
 	for _, inv := range invs {
-		x.oblige(s, kind, pos, env.evalBool(inv), "loop "+key+" invariant: "+inv.Src)
+		if t, ok := x.tryInv(env, inv); ok {
+			x.oblige(s, kind, pos, t, "loop "+key+" invariant: "+inv.Src)
+		}
 	}
+}
+
+// tryInv evaluates a loop invariant.  An invariant that no longer fits the code (it names a local that
+// does not exist any more) is dropped with a note instead of making the whole function undecidable:
+// whatever depended on it then fails as an ordinary obligation and is reported.
+func (x *Exec) tryInv(env *SpecEnv, inv *SpecExpr) (term string, ok bool) {
+	defer func() {
+		if r := recover(); r != nil {
+			if u, isU := r.(unsupported); isU && strings.Contains(u.msg, "unknown identifier") {
+				x.eng.note("loop invariant dropped, it does not fit the current code: " + u.msg)
+				term, ok = "", false
+				return
+			}
+			panic(r)
+		}
+	}()
+	return env.evalBool(inv), true
 }
 
 func (x *Exec) assumeInvs(s *State, invs []*SpecExpr, pos token.Pos, extra map[string]Val) {
@@ -423,7 +442,9 @@ func (x *Exec) assumeInvs(s *State, invs []*SpecExpr, pos token.Pos, extra map[s
 		env.vars[k] = v
 	}
 	for _, inv := range invs {
-		s.assume(env.evalBool(inv))
+		if t, ok := x.tryInv(env, inv); ok {
+			s.assume(t)
+		}
 	}
 }
 
